@@ -207,7 +207,11 @@ func classifyInput(exp, got []nMsg) (class string, pos int) {
 	return "", -1
 }
 
-func judge(sim simOut, rr *runRec, out runOut) []finding {
+func judge(sim simOut, rr *runRec, out runOut) []finding { return judgeOpt(sim, rr, out, false) }
+
+// judgeOpt: with roundsAsSets the tool invocations of a round are compared as sets (a tools node that is
+// re-run after an interrupt one of its tools asked for runs all calls of its round again).
+func judgeOpt(sim simOut, rr *runRec, out runOut, roundsAsSets bool) []finding {
 	var fs []finding
 	mode := out.Mode
 	add := func(sig, format string, a ...any) {
@@ -246,6 +250,9 @@ func judge(sim simOut, rr *runRec, out runOut) []finding {
 			exp = sim.Rounds[r-1]
 		}
 		got := sortedInv(byRound[r])
+		if roundsAsSets {
+			exp, got = uniqSorted(exp), uniqSorted(got)
+		}
 		if strings.Join(exp, "\n") != strings.Join(got, "\n") {
 			add("tool-round/"+mode+"/invocations-differ", "tool round %d: expected %v, got %v", r, exp, got)
 			break
@@ -286,4 +293,14 @@ func judge(sim simOut, rr *runRec, out runOut) []finding {
 		}
 	}
 	return fs
+}
+
+func uniqSorted(xs []string) []string {
+	var out []string
+	for i, x := range xs {
+		if i == 0 || x != xs[i-1] {
+			out = append(out, x)
+		}
+	}
+	return out
 }
